@@ -379,6 +379,6 @@ pub fn run(ctx: &mut Ctx) {
     let subs: Vec<ChemicalRecord> = load("pcsaft/gc_substances.json").unwrap_or_default();
     let names: Vec<String> = subs.iter().filter_map(|c| c.identifier.name.clone()).collect();
     ctx.run(&names, |c| format!("gc|{c}"), gc_case);
-    ctx.rule = "exhaustive: every JSON file under parameters/{pcsaft,epcsaft,saftvrmie,saftvrqmie,ideal_gas} (rehner2023_binary.json excluded by name) is parsed with the record type of its model and checked for duplicate lookup identifiers (name, cas / segment identifier / binary pair in either orientation), positive m, sigma, epsilon_k, molar weight, referential integrity of binary and segment-binary files and bond indices; every pure PC-SAFT, SAFT-VR Mie and SAFT-VRQ Mie record builds a model with a critical point and a vapor-liquid equilibrium with finite p, rho, s at 8 reduced temperatures in [0.45, 0.99] ([0.6, 0.99] for SAFT-VRQ Mie; helium FH2 excepted); every gc substance is assembled from the shipped segment tables. Both tiers enumerate the complete set.".into();
+    ctx.rule = "exhaustive: every JSON file under parameters/{pcsaft,epcsaft,saftvrmie,saftvrqmie,ideal_gas} (rehner2023_binary.json excluded by name) is parsed with the record type of its model and checked for duplicate lookup identifiers (name, cas / segment identifier / binary pair in either orientation), positive m, sigma, epsilon_k, molar weight, group-contribution assembly of every substance from every segment table succeeds exactly when the raw JSON says it must (all groups present; at most one polar/associating group for the homosegmented model), referential integrity of binary and segment-binary files and bond indices; every pure PC-SAFT, SAFT-VR Mie and SAFT-VRQ Mie record builds a model with a critical point and a vapor-liquid equilibrium with finite p, rho, s at 8 reduced temperatures in [0.45, 0.99] ([0.6, 0.99] for SAFT-VRQ Mie; helium FH2 excepted); every gc substance is assembled from the shipped segment tables. Both tiers enumerate the complete set.".into();
     ctx.assume("saturation curve sampled at 8 reduced temperatures per record (the lattice the property was calibrated on)");
 }
